@@ -1,7 +1,8 @@
 (* Props/C12_rotation3.v — property C12, GENERAL ROTATIONS (proper and improper), continued from C12_rotation2.v:
    the EVALUATIONS (function values and gradients; Proofs/RotationEvalP.v) and the ELECTRON REPULSION at the level of
-   the algebraic specification (Gauss/Poly6.v, Proofs/RotationEriP.v).  Any field, no analysis, no axioms; no property
-   of exp, sqrt, pi or of the Boys function is used.
+   the algebraic specification and of every entry of the model's eri_block (Gauss/Poly6.v, Proofs/RotationEriP.v,
+   Proofs/RotationEriBlockP.v).  Any field (characteristic 0 where Phi_unique is used), no analysis, no axioms; no
+   property of exp, sqrt, pi or of the Boys function is used.
 
    CONVENTIONS as in C12_rotation.v / C12_rotation2.v: R : mat3 (rows), [rot_shell R s] has centre R * centre(s),
    [mapply R r] = R r, D(R)[a,a'] = coefficient of u^a' in (R^T u)^a, Jsum J (rot_expand R a) = sum_a' D(R)[a,a'] J a',
